@@ -6,6 +6,7 @@ use crate::oracle::{classify, Out};
 use crate::refenc::{ADh, AEcParams, AEcdh, ASig, W};
 use crate::rng::Rng;
 use nom_derive::Parse;
+use crate::visit::veq;
 use serde_json::json;
 use tls_parser::nom;
 use tls_parser::*;
@@ -23,7 +24,7 @@ macro_rules! rt {
             let r = f(&input[..]);
             let out = classify(&r);
             match &r {
-                Ok((_, v)) => (out, Some(*v == $exp), format!("{:.300?}", v)),
+                Ok((_, v)) => (out, Some(veq(v, &$exp)), format!("{:.300?}", v)),
                 Err(_) => (out, None, String::new()),
             }
         });
